@@ -16,7 +16,7 @@ def seeded():
             need = need[:170] + '...'
         det = []
         if os.path.exists(d + 'detection.txt'):
-            for l in open(d + 'detection.txt'):
+            for l in open(d + 'detection.txt', errors='replace'):
                 mm = re.match(r'SEEDED (\S+) property=(\S+) check=(\S+) tier=(\S+) (\S+) exit=(\d+) violations=(\d+)\s*(.*)', l)
                 if mm:
                     what = mm.group(8).replace('what:', '').strip().replace('|', '/')
